@@ -472,6 +472,22 @@ class OfxgetWorld:
                     self.violate("C18", "L1w-wire", "user", f"{where}: USERID {s.userid!r}, effective setting {expect['user']!r}")
             if is_prof and expect["skipprofile"] and run.cmd != "prof":
                 self.violate("C18", "L1w-wire", "skipprofile", f"{where}: profile request sent although skipprofile is in effect")
+            # format flags, read off the raw body
+            try:
+                body_txt = refofx.split_file(s.conn.request.body)[1].strip()
+            except refofx.RefError:
+                body_txt = ""
+            if body_txt:
+                is_pretty = "\n" in body_txt
+                if is_pretty != bool(expect["pretty"]):
+                    self.violate("C18", "L1w-wire", "pretty", f"{where}: body is {'pretty-printed' if is_pretty else 'not pretty-printed'}, effective setting pretty={expect['pretty']}")
+                if expect["version"] < 200:
+                    closed = "</DTCLIENT>" in body_txt
+                    if closed == bool(expect["unclosedelements"]):
+                        self.violate("C18", "L1w-wire", "unclosedelements", f"{where}: data elements are {'closed' if closed else 'unclosed'}, effective setting unclosedelements={expect['unclosedelements']}")
+                nfu = s.hdr.get("NEWFILEUID")
+                if (nfu == "NONE") != bool(expect["nonewfileuid"]):
+                    self.violate("C18", "L1w-wire", "nonewfileuid", f"{where}: NEWFILEUID={nfu!r}, effective setting nonewfileuid={expect['nonewfileuid']}")
             dest = (s.conn.scheme, s.conn.host, s.conn.port, s.path)
             if is_prof or expect["skipprofile"]:
                 if dest != peers.url_parts_q(expect["url"]):
